@@ -302,6 +302,12 @@ func replayFinding(cfg CheckCfg, r HarnessResult, f Finding, modelPath string) s
 			}
 		}
 	}
+	for _, t := range f.Trace {
+		// the path depends on the order in which a map of pointers was visited (forked order)
+		if strings.Contains(t, "maporder") {
+			count = "300"
+		}
+	}
 	to := 600 * time.Second
 	if f.Kind == "unwind" {
 		to = 60 * time.Second
